@@ -25,7 +25,8 @@ LEVEL = 'exploration'
 CLASSES = [('stats', 1)]
 TIERS = {'quick': {'chunk': 50}}
 DIFF_ENCS = [None, None, 'utf-8', 'latin-1', 'utf-16', 'utf-16-le',
-             'utf-32-be', 'cp037', 'utf-32', 'shift_jis']
+             'utf-32-be', 'cp037', 'utf-32', 'shift_jis', 'utf-8-sig',
+             'UTF-16', 'utf_8', 'U32', 'cp1252', 'utf-16-be']
 RULE = ('seeded trees (1-3 changes x 1-3 files) whose diffs are assembled '
         'from generated hunks with known counts (0-4 hunks, zero-length '
         'sides, omitted ",1", payloads starting with "--" / "++" / "@@", '
@@ -48,7 +49,7 @@ STATE_MEASURE = ('distinct (level of the step, diff encoding class, newline, '
                  'declared?, file classes present) tuples')
 
 
-def make_diff(rng, enc, kind, damaged):
+def make_diff(rng, enc, kind, damaged, long_first=0):
     nl = '\n' if kind == 'unix' else '\r\n'
 
     for _ in range(6):
@@ -69,6 +70,9 @@ def make_diff(rng, enc, kind, damaged):
 
         break
 
+    if long_first:
+        lines.insert(0, 'Index: ' + 'p/' * long_first)
+
     text = nl.join(lines) + nl
     return text.encode(enc or 'utf-8')
 
@@ -82,7 +86,7 @@ def generate(rng, tier, cls):
                     'value': {'stats': {'custom': 7, 'insertions': 99},
                               'other': 'x'}})
 
-    nch = rng.randint(1, 3)
+    nch = rng.randint(1, 5 if tier == 'thorough' else 3)
     fkinds = {}
 
     for ci in range(nch):
@@ -90,6 +94,9 @@ def generate(rng, tier, cls):
 
         if rng.chance(0.3):
             attrs['meta'] = {'stats': {'reviewers': 2}, 'author': 'a'}
+
+        if rng.chance(0.2):
+            attrs['encoding'] = rng.choice(['utf-16', 'utf-32-be', 'cp037'])
 
         ops.append({'op': 'add_change', 'tree': tn, 'attrs': attrs})
 
@@ -105,8 +112,10 @@ def generate(rng, tier, cls):
             kind = rng.choice(['unix', 'dos'])
 
             if k < 15:
-                fattrs['diff'] = {'$bytes': make_diff(rng, enc, kind,
-                                                      False).hex()}
+                fattrs['diff'] = {'$bytes': make_diff(
+                    rng, enc, kind, False,
+                    rng.choice([50, 511, 512, 513, 2048, 40000])
+                    if rng.chance(0.06) else 0).hex()}
             elif k < 17:
                 fattrs['diff'] = {'$bytes': make_diff(rng, enc, kind,
                                                       True).hex()}
@@ -117,6 +126,12 @@ def generate(rng, tier, cls):
             elif k < 19:
                 fattrs['diff'] = {'$bytes': ''}
             # else: absent
+
+            if rng.chance(0.25):
+                # the file's own encoding (for its metadata) must not leak
+                # into how its diff is read: diffs never inherit
+                fattrs['encoding'] = rng.choice(['utf-16', 'utf-32', 'ascii',
+                                                 'latin-1', 'cp037'])
 
             if 'diff' in fattrs:
                 fkinds[(ci, fi)] = (enc, kind)
@@ -351,7 +366,8 @@ def execute(scn, L):
 
                     if f['diff']['content']:
                         encs.add('ascii-compatible' if e in
-                                 (None, 'utf-8', 'latin-1', 'shift_jis')
+                                 (None, 'utf-8', 'latin-1', 'shift_jis',
+                                  'utf_8', 'cp1252')
                                  else 'non-ascii-compatible')
 
             out.violate('C13.stats-differ', '%s:%s:%s' % (
